@@ -5,6 +5,8 @@ import (
 	"strings"
 	"time"
 
+	"github.com/libp2p/go-libp2p/core/peer"
+
 	"github.com/LiskHQ/lisk-engine/pkg/p2p"
 )
 
@@ -81,7 +83,7 @@ func errStr(e error) string {
 }
 
 func poll(d time.Duration, f func() bool) bool {
-	deadline := time.Now().Add(d)
+	deadline := time.Now().Add(scaled(d))
 	for {
 		if f() {
 			return true
@@ -185,7 +187,7 @@ func runHosts(name string) (rec hRec) {
 	defer b.Close()
 
 	connect := func(from, to *p2p.VerifC18Node) error {
-		ctx, cancel := context.WithTimeout(context.Background(), 2*time.Second)
+		ctx, cancel := context.WithTimeout(context.Background(), scaled(2*time.Second))
 		defer cancel()
 		return from.Connect(ctx, to)
 	}
@@ -236,10 +238,10 @@ func runHosts(name string) (rec hRec) {
 	}
 	obs.ConnectedBefore = bp(poll(time.Second, func() bool { return a.IsConnected(b.ID()) }))
 
-	ctx, cancel := context.WithTimeout(context.Background(), 20*time.Second)
+	ctx, cancel := context.WithTimeout(context.Background(), scaled(20*time.Second))
 	defer cancel()
 	sendRaw := func(response bool, raw []byte) {
-		c, cc := context.WithTimeout(ctx, 2*time.Second)
+		c, cc := context.WithTimeout(ctx, scaled(2*time.Second))
 		defer cc()
 		obs.OffenceErr = sp(errStr(b.SendRaw(c, a.ID(), response, raw)))
 	}
@@ -260,7 +262,7 @@ func runHosts(name string) (rec hRec) {
 	case "rate_excess":
 		ok := 0
 		for i := 0; i < 4; i++ { // the 4th message exceeds the limit of 3
-			_, err := b.Request(ctx, a.ID(), "ping", []byte("x"), 500*time.Millisecond)
+			_, err := b.Request(ctx, a.ID(), "ping", []byte("x"), scaled(500*time.Millisecond))
 			if err == nil {
 				ok++
 			}
@@ -270,7 +272,7 @@ func runHosts(name string) (rec hRec) {
 	case "solicited_excess":
 		ok := 0
 		for i := 0; i < 4; i++ { // the 4th RESPONSE exceeds A's limit of 3 received messages for the procedure
-			_, err := a.Request(ctx, b.ID(), "ping", []byte("x"), 500*time.Millisecond)
+			_, err := a.Request(ctx, b.ID(), "ping", []byte("x"), scaled(500*time.Millisecond))
 			if err == nil {
 				ok++
 			}
@@ -287,13 +289,22 @@ func runHosts(name string) (rec hRec) {
 	case "ban_peer":
 		a.BanPeer(b.ID())
 	case "legal_traffic":
+		// Bursts are tied to OBSERVED reset ticks of A's limiter, not to sleeps: a sentinel peer's counter for the procedure is bumped
+		// and the burst starts when it has dropped back to 0 (the tick); before the next burst the sentinel is bumped again, so two
+		// bursts can never share an interval, however slow the machine is.
 		ok := 0
+		sentinel, _ := peer.Decode(fixedPeerID)
+		waitTick := func() bool {
+			_ = a.LimiterMessage("ping", sentinel, "/ip4/10.254.0.1/tcp/4001")
+			return poll(3*time.Second, func() bool { return a.LimiterCounter("ping", sentinel) == 0 })
+		}
 		for burst := 0; burst < 3; burst++ {
-			if burst > 0 {
-				time.Sleep(450 * time.Millisecond)
+			if !waitTick() {
+				rec.Err = "no limiter tick observed"
+				return rec
 			}
 			for i := 0; i < 4; i++ {
-				if _, err := b.Request(ctx, a.ID(), "ping", []byte("x"), 500*time.Millisecond); err == nil {
+				if _, err := b.Request(ctx, a.ID(), "ping", []byte("x"), scaled(500*time.Millisecond)); err == nil {
 					ok++
 				}
 			}
